@@ -290,8 +290,8 @@ func (st *State) Concretize(t *term.T, lo, hi int64) int64 {
 	if t.IsConst() {
 		return t.Signed()
 	}
-	if hi-lo > 4096 {
-		st.unsupported("concretize over large range [%d,%d]", lo, hi)
+	if hi-lo > 64 {
+		return st.concretizeByModel(t, lo, hi)
 	}
 	conds := make([]*term.T, 0, hi-lo+1)
 	for v := lo; v <= hi; v++ {
